@@ -508,6 +508,10 @@ def run_prepared(prep, st, ctx):
             elif fl in ("aiter_cls", "aiterable", "aiter_full", "aiter_proxy"):
                 if src.n_aclose != 1:
                     out.violate("C08.underlying_not_closed_exactly_once", sig + ("count=%d" % src.n_aclose,), describe())
+                elif fl == "aiterable" and not all(it.closed_self for it in src.iters):
+                    # every cursor the iterable was asked for is the scope's to close, started or not
+                    out.violate("C08.iterator_obtained_from_the_iterable_never_closed",
+                                sig + ("obtained=%d" % len(src.iters),), describe())
             elif fl == "agen" and not prep.borrowed:
                 if src.agen.ag_frame is not None:
                     out.violate("C08.underlying_not_closed_exactly_once", sig + ("count=0",), describe())
